@@ -31,8 +31,7 @@ EXPLANATION = (
     "compared with the affine law computed with Python ints; ec_ws_new_point "
     "refuses off-curve points; blind_scalar_factor = k + R*order for scalars of "
     "any length with every write in bounds. Not decided: the windowed ladders "
-    "as a whole, operands outside the case table, the Edwards/Montgomery "
-    "curve code.")
+    "as a whole, operands outside the case tables, the X25519/X448 ladders.")
 
 PT = "Crypto.PublicKey._point"
 DH = "Crypto.Protocol.DH"
@@ -160,5 +159,8 @@ def run(check, ctx):
     from . import c_ec, c_mont
     c_ec.curve_conformance(check, repo)
     c_ec.ec_tables(check, ctx)
+    # the Edwards curves: field layer of 25519 and the group-law cases (torsion points included) for Ed25519 / Ed448
+    from . import c_ed
+    c_ed.ed_tables(check, ctx)
     check.undecided.append("the group law for operand pairs outside the case table; the windowed scalar-multiplication "
                            "ladders as a whole (ec_scalar, generator tables); Ed25519/Ed448/X25519/X448 native code")
